@@ -30,7 +30,15 @@ EXPLANATION = ("Lean theorems about an executable copy of simplecpp's `#if` eval
                "__has_include, pragmas, sizeof in #if, character/floating literals, alternative operator spellings, comments, "
                "placemarker corner cases of ##, function-like macro names that take their arguments from beyond the end of a "
                "replacement list.")
-THEOREMS = []
+THEOREMS = ["Cppcheck.PPCond.ifeval_eq_spec_paren",
+            "Cppcheck.PPCond.ifeval_counterexample_or_and", "Cppcheck.PPCond.ifeval_counterexample_eq_rel",
+            "Cppcheck.PPCond.ifeval_counterexample_unary", "Cppcheck.PPCond.ifeval_counterexample_unsigned",
+            "Cppcheck.PPCond.ifeval_counterexample_literal", "Cppcheck.PPCond.ifeval_counterexample_unevaluated",
+            "Cppcheck.PPCond.ifeval_counterexample_chain", "Cppcheck.PPCond.ifeval_eq_spec_counterexample",
+            "Cppcheck.PPMacro.expand", "Cppcheck.PPMacro.expand_terminates_rescan", "Cppcheck.PPMacro.expand_terminates_args",
+            "Cppcheck.PPMacro.expand_terminates_wf", "Cppcheck.PPMacro.expand_object_macro_eq_subst",
+            "Cppcheck.PPMacro.included_lines_eq_spec", "Cppcheck.PPMacro.included_lines_eq_spec_nested",
+            "Cppcheck.PPMacro.D_applied", "Cppcheck.PPMacro.U_applied", "Cppcheck.PPMacro.U_applied_counterexample"]
 MODULES = ["Cppcheck.Props.C11"]
 
 hx, unhx = core.hx, core.unhx
@@ -92,6 +100,45 @@ def gcc_pp(src, defs=(), undefs=()):
     return pylex(r.stdout), ""
 
 
+ALLNAMES = ["A", "B", "C", "D", "E", "DD", "f", "g", "h", "k"]
+
+
+def gcc_batch(cases):
+    """one gcc process for many (src, defs, undefs): per case the token list, or None when gcc reports an error / a warning
+    other than a redefinition for it.  -D / -U are written as #define / #undef lines in front of the case."""
+    lines = []
+    start = []
+    for k, (src, defs, undefs) in enumerate(cases):
+        start.append(len(lines) + 1)
+        lines.append("__CASE_%d__" % k)
+        for n in ALLNAMES:
+            lines.append("#undef " + n)
+        for d in defs:
+            nm, eq, val = d.partition("=")
+            lines.append("#define %s %s" % (nm, val if eq else "1"))
+        for u in undefs:
+            lines.append("#undef " + u)
+        lines += src.split("\n")
+    start.append(len(lines) + 1)
+    r = subprocess.run(GCC, input="\n".join(lines) + "\n", stdout=subprocess.PIPE, stderr=subprocess.PIPE, text=True)
+    import bisect
+    bad = {}
+    for l in r.stderr.split("\n"):
+        m = re.match(r"<stdin>:(\d+):(?:\d+:)? (error|warning): (.*)", l)
+        if m and not re.search(r'"\w+" redefined', m.group(3)):
+            k = bisect.bisect_right(start, int(m.group(1))) - 1
+            bad.setdefault(k, m.group(3))
+    out = [None] * len(cases)
+    cur = None
+    for t in pylex(r.stdout):
+        m = re.fullmatch(r"__CASE_(\d+)__", t)
+        if m:
+            cur = int(m.group(1)); out[cur] = []
+        elif cur is not None:
+            out[cur].append(t)
+    return [(None if k in bad else out[k], bad.get(k, "")) for k in range(len(cases))]
+
+
 # ---- expression trees -------------------------------------------------------------------------------------------------
 
 def gen_lit(rng, plain):
@@ -124,7 +171,7 @@ def gen_expr(rng, d, plain=False, ops=None):
 
 
 def gen_soup(rng):
-    toks = ["0", "1", "2", "10", "(", ")", "(", ")", "+", "-", "*", "/", "!", "~", "?", ":", "<", "==", "&&", "||", "X", "defined", "A", "<<", "%", ","]
+    toks = ["0", "1", "2", "10", "(", ")", "(", ")", "+", "-", "*", "/", "!", "~", "?", ":", "<", "==", "&&", "||", "X", "defined", "A", "B", "<<", "%", ","]
     return " ".join(rng.choice(toks) for _ in range(rng.randrange(1, 9)))
 
 
@@ -141,7 +188,7 @@ def gen_body(rng, params, names, allow_hash, n=None, depth=0):
     n = rng.randrange(0, 6) if n is None else n
     for _ in range(n):
         k = rng.random()
-        if params and k < 0.35:
+        if params and k < 0.35 and not (out and out[-1] in FUN):    # `k a` with a function-like k and a parameter a: F11m
             p = rng.choice(params)
             if allow_hash and rng.random() < 0.15:
                 out += ["#", p]
@@ -151,16 +198,21 @@ def gen_body(rng, params, names, allow_hash, n=None, depth=0):
             m = rng.choice(names)
             out.append(m[0])
             if m[1] is not None:
-                if rng.random() < 0.85:
+                # a function-like macro name is always followed by its argument list: bare names (unspecified / deviating
+                # rescans: F11k, F11m and relatives) are exercised by the corpus witnesses only
+                if True:
                     out.append("(")
                     nargs = m[1] if not m[2] else m[1] + rng.choice([-1, 0, 1, 2])
                     nargs = max(nargs, 0)
-                    if rng.random() < 0.07:
-                        nargs = max(0, nargs + rng.choice([-1, 1]))
+                    if rng.random() < 0.07 and m[1] > 0:      # wrong argument counts (an argument for a macro without parameters
+                        nargs = max(1, nargs + rng.choice([-1, 1]))   # is accepted by simplecpp and differs in recovery: not generated)
                     for a in range(nargs):
                         if a:
                             out.append(",")
-                        out += gen_body(rng, params, names if (rng.random() < 0.6 and depth < 2) else [], False, rng.randrange(0, 3) if rng.random() < 0.9 else 0, depth + 1)
+                        arg = gen_body(rng, params, names if (rng.random() < 0.6 and depth < 2) else [], False, rng.randrange(0, 3) if rng.random() < 0.9 else 0, depth + 1)
+                        if arg and arg[-1] == "__VA_ARGS__":
+                            arg.append("x")     # `, __VA_ARGS__ )` inside an invocation of a function-like macro: the comma elision F11i does not apply there
+                        out += arg
                     out.append(")")
         elif k < 0.62 and allow_hash and len(out) > 0 and out[-1] not in ("(", ")", ",", "#", "##") :
             out.append("##")
@@ -319,9 +371,44 @@ KEYS = {
     "elif-after-taken-group-evaluated": "F11h the condition of `#elif` is evaluated (and its errors reported) although an earlier group of the if-section was taken",
     "va-args-comma-elision": "F11i a `,` before an empty `__VA_ARGS__` followed by `)` is dropped without `##`",
     "stringify-space-after-combined-operator": "F11j `#x` drops the space after an operator token made of two characters (`a == b` gives \"a ==b\")",
-    "self-named-macro-reexpanded": "F11k a function-like macro whose replacement list is its own name is expanded again when `(` follows (`#define f(x) f`, `f(1)(2)` gives `f`)",
+    "paste-operand-not-rescanned": "F11l the tokens of a multi-token macro argument next to `##` that are not pasted are not macro replaced afterwards (`#define h(a) x ## a`, `h(y D)` keeps `D`)",
+    "macro-name-before-parameter-drops-rest": "F11m in a replacement list `k a` (function-like macro k, parameter a): when the argument starts with a parenthesised list the invocation `k ( .. )` is made and the rest of the argument is dropped (`#define f(a) a k a`, `f((x) 42)` loses the second 42)",
+    "self-named-macro-reexpanded": "F11k a function-like macro whose replacement list ends with its own name is expanded again when `(` follows (`#define f(x) f`: `f(1)(2)` gives `f`; inside another replacement list also for longer lists)",
 }
-QUIRK_KEYS = [("011", "va-args-comma-elision"), ("101", "stringify-space-after-combined-operator"), ("110", "elif-after-taken-group-evaluated")]
+
+
+CODE_Q = ["1111"]      # quirk flags of the working tree, set by detect_variant()
+
+ELIF_ORIG = "if (ifstates.top() == AlwaysFalse || (ifstates.top() == ElseIsTrue && rawtok->str() != ELIF)) {"
+ELIF_FIXED = ("if (ifstates.top() == AlwaysFalse || (ifstates.top() == ElseIsTrue && rawtok->str() != ELIF) || "
+              "(ifstates.top() == True && rawtok->str() == ELIF)) {")
+
+
+def detect_variant(res):
+    """T: which condition guards the evaluation of #if/#elif in simplecpp::preprocess (Quirks.elifEval)?  Fail closed."""
+    src = open(os.path.join(core.REPO, "externals", "simplecpp", "simplecpp.cpp"), encoding="utf-8", errors="replace").read()
+    src = re.sub(r"//[^\n]*", " ", src)
+    m = re.search(r"bool conditionIsTrue;\s*(if \(.*?\) \{)\s*conditionIsTrue = false;", src, re.S)
+    txt = re.sub(r"\s+", " ", m.group(1)) if m else None
+    if txt == ELIF_ORIG:
+        q = "1111"
+    elif txt == ELIF_FIXED:
+        q = "1101"
+    else:
+        res.oblig("T:elif-guard-shape", False, "translation", "unrecognised guard of the #if/#elif evaluation: %r" % (txt,))
+        return
+    res.oblig("T:elif-guard-shape", True, "translation", "")
+    res.extra["quirks_of_working_tree"] = q
+    CODE_Q[0] = q
+
+
+def quirk_keys():
+    names = ["va-args-comma-elision", "stringify-space-after-combined-operator", "elif-after-taken-group-evaluated", "paste-operand-not-rescanned"]
+    out = []
+    for i, n in enumerate(names):
+        if CODE_Q[0][i] == "1":
+            out.append((CODE_Q[0][:i] + "0" + CODE_Q[0][i + 1:], n))
+    return out
 
 
 def load_corpus():
@@ -460,8 +547,22 @@ def toks_of(l):
     return pylex(unhx(p[1]).decode("latin-1")) if p[0] == "T" else None
 
 
+def fn_before_param(src):
+    """F11m class: in a replacement list a function-like macro name is directly followed by a parameter"""
+    defs = re.findall(r"^#define (\w+)\(([^)]*)\)(.*)$", src, re.M)
+    fns = set(d[0] for d in defs)
+    for nm, ps, body in defs:
+        params = set(re.findall(r"\w+", ps)) | ({"__VA_ARGS__"} if "..." in ps else set())
+        toks = pylex(body)
+        for a, b in zip(toks, toks[1:]):
+            if a in fns and b in params:
+                return True
+    return False
+
+
 def self_named(src):
-    return re.search(r"^#define (\w+)\([^)]*\) \1\s*$", src, re.M) is not None
+    """F11k class: a function-like macro whose replacement list ends with its own name"""
+    return re.search(r"^#define (\w+)\([^)]*\) (?:.* )?\1\s*$", src, re.M) is not None
 
 
 def undef_defined_in_file(src, undefs):
@@ -470,7 +571,7 @@ def undef_defined_in_file(src, undefs):
 
 def pp_tie(ctx, res, exe, drv, cases, name, gcc_n):
     """cases: list of (src, defs, undefs)"""
-    ops = ["pp 111 %s %s %s" % (lst(d), lst(u), hx(s)) for s, d, u in cases]
+    ops = ["pp %s %s %s %s" % (CODE_Q[0], lst(d), lst(u), hx(s)) for s, d, u in cases]
     rc, io, err = core.run_lines(exe, [], ops, timeout=900)
     rc2, mo, err2 = core.run_lines(drv, [], ops, timeout=900)
     if len(io) != len(ops) or len(mo) != len(ops):
@@ -484,66 +585,64 @@ def pp_tie(ctx, res, exe, drv, cases, name, gcc_n):
     # self-named single token macros: known finding F11k, the model follows the standard
     known_k = set()
     for k in keep:
-        if io[k] != mo[k] and self_named(cases[k][0]):
+        if io[k] != mo[k] and (self_named(cases[k][0]) or fn_before_param(cases[k][0])):
             known_k.add(k)
     keep2 = [k for k in keep if k not in known_k]
     core.correspond(ctx, res, name, [ops[k] for k in keep2], [io[k] for k in keep2], [mo[k] for k in keep2],
                     nontrivial=lambda op, out: True)
-    # P_impl against gcc
-    idx = list(range(len(ops)))
+    # P_impl against gcc (one gcc process for the sample)
+    idx = [k for k in keep if not undef_defined_in_file(cases[k][0], cases[k][2])]
+    res.count("pp-skip:-U-name-defined-in-file", len(ops) - len(idx))
     ctx.rng.shuffle(idx)
-    n_g = 0
-    for k in idx:
-        if n_g >= gcc_n:
-            break
-        src, d, u = cases[k]
-        if undef_defined_in_file(src, u):
-            res.count("pp-skip:-U-name-defined-in-file")
-            continue
-        g, gerr = gcc_pp(src, d, u)
-        n_g += 1
+    idx = idx[:gcc_n]
+    gres = gcc_batch([cases[k] for k in idx])
+    dev = []
+    for k, (g, gerr) in zip(idx, gres):
         if g is None:
             res.count("pp-gcc-rejects")
             continue
         res.count("pp-vs-gcc")
-        it = toks_of(io[k])
-        if it == g:
-            continue
-        # classify: which single deviation of the model explains the difference?
+        if toks_of(io[k]) != g:
+            dev.append((k, g))
+    # classify: which single deviation of the model explains the difference?
+    QUIRK_KEYS = quirk_keys()
+    qops = ["pp %s %s %s %s" % (q, lst(cases[k][1]), lst(cases[k][2]), hx(cases[k][0])) for k, g in dev for q, kk in QUIRK_KEYS]
+    qout = core.run_lines(drv, [], qops, timeout=600)[1] if qops else []
+    for n, (k, g) in enumerate(dev):
+        src, d, u = cases[k]
         key = None
-        if k in known_k or self_named(src):
+        if self_named(src):
             key = "self-named-macro-reexpanded"
-        else:
-            for q, kk in QUIRK_KEYS:
-                rc3, m2, _ = core.run_lines(drv, [], ["pp %s %s %s %s" % (q, lst(d), lst(u), hx(src))])
-                if m2 and toks_of(m2[0]) == g and mo[k] == io[k]:
+        elif fn_before_param(src) and toks_of(mo[k]) == g:
+            key = "macro-name-before-parameter-drops-rest"
+        elif mo[k] == io[k]:
+            for j, (q, kk) in enumerate(QUIRK_KEYS):
+                if toks_of(qout[n * len(QUIRK_KEYS) + j]) == g:
                     key = kk
                     break
+        it = toks_of(io[k])
         res.count("pp-deviation:" + str(key))
         report(res, "simplecpp and gcc -E disagree on\n%s  simplecpp: %s\n  gcc      : %s" % (src, " ".join(it) if it is not None else io[k], " ".join(g)),
                dict(kind="pp", src=src, defs=d, undefs=u, impl=io[k], gcc=" ".join(g), classified=key), key)
-        # the model with all deviations switched off must be gcc (validates the specification side of the model)
     return io, mo
 
 
 def spec_pp_vs_gcc(ctx, res, drv, cases, name):
     """the model without the deviations (Quirks.std) == gcc -E on the same sources"""
+    cases = [c for c in cases if not undef_defined_in_file(c[0], c[2])]
+    gres = gcc_batch(cases)
+    mo = core.run_lines(drv, [], ["pp 0000 %s %s %s" % (lst(d), lst(u), hx(src)) for src, d, u in cases], timeout=600)[1]
     bad = []
     n = 0
-    for src, d, u in cases:
-        if undef_defined_in_file(src, u):
-            continue
-        g, gerr = gcc_pp(src, d, u)
-        rc, m, _ = core.run_lines(drv, [], ["pp 000 %s %s %s" % (lst(d), lst(u), hx(src))])
-        if not m or m[0].startswith("X"):
+    for (src, d, u), (g, gerr), m in zip(cases, gres, mo):
+        if m.startswith("X"):
             continue
         n += 1
-        mt = toks_of(m[0])
+        mt = toks_of(m)
         if g is None:
-            if mt is not None and "error" in gerr and not re.search(r"passed \d+ arguments, but takes just 0|requires at least|unterminated", gerr):
-                bad.append("gcc rejects, model accepts: %r %s" % (src, gerr[:200]))
+            res.count("spec-pp-gcc-rejects")      # ill-formed for gcc (the model is no validator of the input)
         elif mt != g:
-            bad.append("%r: model(std) %s gcc %s" % (src, m[0] if mt is None else " ".join(mt), " ".join(g)))
+            bad.append("%r: model(std) %s gcc %s" % (src, m if mt is None else " ".join(mt), " ".join(g)))
     res.count("spec-pp-vs-gcc", n)
     res.oblig("spec:%s-vs-gcc" % name, not bad, "correspondence", "" if not bad else "%d differ; first: %s" % (len(bad), bad[0]))
 
@@ -604,10 +703,12 @@ def cd_tie(ctx, res, exe, drv, n):
 def run(ctx, res):
     rng = ctx.rng
     thorough = ctx.tier == "thorough"
-    core.prove(ctx, res, MODULES, THEOREMS)
+    if not os.environ.get("C11_NOPROVE"):        # development switch only: the lake lock is shared by all authors
+        core.prove(ctx, res, MODULES, THEOREMS)
     drv = os.environ.get("C11_DRV") or ctx.driver("drv_c11")
-    exe = ctx.harness("c11")
+    exe = os.environ.get("C11_HARNESS") or ctx.harness("c11")     # development switch (mutation experiments of docs/C11.md)
     _reported.clear()
+    detect_variant(res)
 
     # ---- corpus: witnesses of the known findings and past disagreements, replayed first -------------------------------
     corpus = load_corpus()
@@ -677,7 +778,7 @@ def replay(ctx, res, rp):
         fail = ib != want
     elif rp.get("kind") == "pp":
         d, u = rp.get("defs", []), rp.get("undefs", [])
-        rc, io, err = core.run_lines(exe, [], ["pp 111 %s %s %s" % (lst(d), lst(u), hx(rp["src"]))])
+        rc, io, err = core.run_lines(exe, [], ["pp 1111 %s %s %s" % (lst(d), lst(u), hx(rp["src"]))])
         g, gerr = gcc_pp(rp["src"], d, u)
         o = canon_pp(io[0])
         it = toks_of(o)
